@@ -38,27 +38,37 @@ impl BytecodeBuffer {
         self.len() == 0
     }
 
+    // Raw pointer to the first word, taken through the place of the boxed slice without going
+    // through a `&[u32]` or `&mut [u32]`: the dispatch loop keeps such pointers in its frames and
+    // in the call-site cache and patches inline cache words through them, so they must carry
+    // write permission (a pointer derived from a shared slice reference must not be written
+    // through) and taking one must not invalidate those handed out before (a `&mut` would).
+    #[inline(always)]
+    fn words(&self) -> *mut u32 {
+        unsafe { (&raw mut **self.0.get()) as *mut u32 }
+    }
+
     // raw pointers for dispatch loop - valid as long as buffer lives
     #[inline(always)]
     pub fn as_ptr(&self) -> *const u32 {
-        unsafe { (&*self.0.get()).as_ptr() }
+        self.words() as *const u32
     }
 
     #[inline(always)]
     pub fn as_mut_ptr(&self) -> *mut u32 {
-        unsafe { (&mut *self.0.get()).as_mut_ptr() }
+        self.words()
     }
 
     #[inline(always)]
     pub fn read(&self, off: usize) -> u32 {
-        unsafe { *(&*self.0.get()).get_unchecked(off) }
+        unsafe { *self.words().add(off) }
     }
 
     // for inline cache patching
     #[inline(always)]
     pub fn patch(&self, off: usize, val: u32) {
         unsafe {
-            *(&mut *self.0.get()).get_unchecked_mut(off) = val;
+            *self.words().add(off) = val;
         }
     }
 
